@@ -5,3 +5,4 @@ import UgoVerif.Props.C13
 import UgoVerif.Props.C20
 import UgoVerif.Props.C01
 import UgoVerif.Props.C16
+import UgoVerif.Props.C11
